@@ -127,6 +127,9 @@ func cfgFor(profile string, i int) map[string]interface{} {
 	if profile == "poorreward" {
 		return map[string]interface{}{"blockReward": []int64{6, 12, 3}[i%3], "baseline": 0}
 	}
+	if profile == "valset" {
+		return map[string]interface{}{"validators": 3, "maxValidators": 2}
+	}
 	if profile == "scarce" {
 		if i%2 == 1 {
 			// providers that do not re-declare their status within 400 blocks are taken offline by the node end-blocker
@@ -155,8 +158,9 @@ func cfgFor(profile string, i int) map[string]interface{} {
 			// everything has been minted already: no subsidy at all
 			return map[string]interface{}{"blockReward": 2520, "baseline": 0, "rewardBase": "400000000000000"}
 		case 5:
-			// between the second and the third halving point: a quarter of the subsidy
-			return map[string]interface{}{"blockReward": 2520, "baseline": 0, "rewardBase": "310000000000000"}
+			// between the second and the third halving point: a quarter of the subsidy - and below the baseline, where the
+			// yield-derived reward (60 per pledged coin and block here) is capped by that quarter, not by the full block reward
+			return map[string]interface{}{"blockReward": 840, "baseline": 1000, "apy": "600", "halvingPeriod": 20, "rewardBase": "310000000000000"}
 		}
 		if i%3 == 2 {
 			// below the baseline: the per-block reward is capped by pledged * apy / (halving/2)
@@ -261,7 +265,7 @@ func superProfile() chain.Profile {
 	p.Nodes = []string{"a01", "a02", "a03"}
 	p.Gateways = []string{"a01", "a02", "a03"}
 	p.Weights = map[string]int{"Blocks": 14, "Delegate": 26, "Undelegate": 16, "Redelegate": 8, "ResetSuper": 10, "AddVstorage": 8, "RemoveVstorage": 8,
-		"StoreNew": 6, "Complete": 8, "Claim": 2, "SuperCycle": 14}
+		"StoreNew": 6, "Complete": 8, "Claim": 2, "SuperCycle": 14, "StaleHook": 6}
 	p.Caps = []int64{1000000, 2000000, 3000000}
 	p.Sizes = []int64{1000}
 	p.Durs = []int64{3600}
@@ -284,8 +288,21 @@ func superstoreProfile() chain.Profile {
 	return p
 }
 
+// valsetProfile: the super profile on three validators of which two are active: stake moves in whole units of consensus
+// power, validators enter and leave the active set at the end of the block (x/staking end-blocker -> x/node hooks).
+func valsetProfile() chain.Profile {
+	p := superProfile()
+	p.Name = "valset"
+	p.Vals = []string{"v1", "v2", "v3"}
+	p.Weights = map[string]int{"Blocks": 16, "Delegate": 18, "Undelegate": 14, "Redelegate": 8, "ResetSuper": 8, "AddVstorage": 6, "RemoveVstorage": 4,
+		"StoreNew": 4, "Complete": 6, "SuperCycle": 10, "ValRotate": 16, "StaleHook": 6}
+	return p
+}
+
 func profileByName(n string) chain.Profile {
 	switch n {
+	case "valset":
+		return valsetProfile()
 	case "pay":
 		return payProfile()
 	case "life":
